@@ -52,9 +52,21 @@ def minGap (a b : Option Rat) : Option Rat :=
   | x, none => x
   | some x, some y => some (if x ≤ y then x else y)
 
+/-- The magnitude up to which margins are absolute; beyond it they are taken relative to it. -/
+def magUnit : Rat := 64
+
+def ratAbs (x : Rat) : Rat := if x < 0 then -x else x
+
+/-- `x - y` divided by `max 1 (max |x| |y| / 64)`: the margin between two neighbouring scores,
+absolute for scores up to 64 in magnitude and relative beyond (float rounding grows with the
+magnitude). -/
+def relMargin (x y : Rat) : Rat :=
+  let m := if ratAbs x ≤ ratAbs y then ratAbs y else ratAbs x
+  if m ≤ magUnit then x - y else (x - y) * magUnit / m
+
 /-- Tie information for one selection: `(finiteTie, ninfChoice, gap)`; `gap` is the smallest
-difference between two neighbours among the first `K + 1` candidates in sorted order (both
-finite): every decision of `topk` that shows in the result — who is in, and in which order —
+margin (`relMargin`) between two neighbours among the first `K + 1` candidates in sorted order
+(both finite): every decision of `topk` that shows in the result — who is in, and in which order —
 has at least this margin. -/
 def tieInfo (cands : List Score) (K : Nat) : Bool × Bool × Option Rat :=
   let sorted := (cands.zipIdx.mergeSort fun a b => Score.le b.1 a.1).map (·.1)
@@ -64,7 +76,7 @@ def tieInfo (cands : List Score) (K : Nat) : Bool × Bool × Option Rat :=
   let ninf := (sorted.take K).any (·.isNone) && decide (2 ≤ nNone)
   let gap := (top.zip top.tail).foldl (fun g (a, b) =>
     match a, b with
-    | some x, some y => minGap g (some (x - y))
+    | some x, some y => minGap g (some (relMargin x y))
     | _, _ => g) none
   (fin, ninf, gap)
 
@@ -73,6 +85,13 @@ def elemTie (cfg : Cfg) (lm : LM St) (t : Nat) (e : Elem St) : Bool × Bool × O
   let cands := candidates (e.slots.map (clampSlot cfg.V)) (rows.map (·.1))
   tieInfo cands (min cfg.width (e.slots.length * cfg.V))
 
+/-- The hypothesis of `C04_skeleton_stable` for one selection: `sepB m` on the candidates of a live
+element and the selection the model makes (`selDet`). -/
+def elemSep (m : Rat) (cfg : Cfg) (lm : LM St) (t : Nat) (e : Elem St) : Bool :=
+  let rows := elemRows cfg lm t e
+  let cands := candidates (e.slots.map (clampSlot cfg.V)) (rows.map (·.1))
+  sepB m cands (selDet cands (min cfg.width (e.slots.length * cfg.V)))
+
 /-- What is collected along the trajectory: tie flags, the smallest selection margin, and for
 every batch element the size `S` of the history tensor at the step at which it was first found
 finished (from then on its columns are only right-padded). -/
@@ -80,11 +99,13 @@ structure Traj where
   tie : Bool := false
   ninf : Bool := false
   gap : Option Rat := none
+  /-- every selection so far satisfied `sepB margin` (only evaluated when a margin is given) -/
+  sep : Bool := true
   frozen : List (Option Nat) := []
 
 /-- The model's `loop`, re-run step by step through `stepBatch` so that tie flags can be
 collected along the trajectory (the result is asserted equal to `search`). -/
-def loopFlags (cfg : Cfg) (lm : LM St) :
+def loopFlags (cfg : Cfg) (lm : LM St) (margin : Option Rat) :
     Nat → Nat → Nat → Nat → List (Elem St) → Traj → Nat →
     (Except String (Nat × List (Elem St))) × Traj × Nat
   | 0, t, S, _, elems, fl, _ => (Except.ok (S, elems), fl, t)
@@ -94,8 +115,11 @@ def loopFlags (cfg : Cfg) (lm : LM St) :
       let fl1 : Traj := elems.foldl (fun (acc : Traj) e =>
         if elemDone cfg t e then acc else
           let ti := elemTie cfg lm t e
+          let sp := match margin with
+            | none => true
+            | some m => elemSep m cfg lm t e
           ({ acc with tie := acc.tie || ti.1, ninf := acc.ninf || ti.2.1,
-                      gap := minGap acc.gap ti.2.2 } : Traj)) fl
+                      gap := minGap acc.gap ti.2.2, sep := acc.sep && sp } : Traj)) fl
       let fr : List (Option Nat) := (elems.zip fl1.frozen).map fun (e, f) =>
         match f with
         | some s => some s
@@ -103,7 +127,7 @@ def loopFlags (cfg : Cfg) (lm : LM St) :
       let fl' : Traj := { fl1 with frozen := fr }
       match stepBatch selDet cfg lm (0, []) t S Kp elems with
       | .error e => (Except.error e, fl', t)
-      | .ok (S', elems') => loopFlags cfg lm fuel (t + 1) S' cfg.width elems' fl' 0
+      | .ok (S', elems') => loopFlags cfg lm margin fuel (t + 1) S' cfg.width elems' fl' 0
 
 def c04Search : Handler := fun c => do
   let V ← getNat c "V"
@@ -118,6 +142,10 @@ def c04Search : Handler := fun c => do
     | none => pure []
     | some q => jsonToList (jsonToList (jsonToList jsonToInt)) q
   let completeT ← getOptNat c "complete_T"
+  let margin ← match fieldOpt c "margin" with
+    | none => pure none
+    | some (.null) => pure none
+    | some j => some <$> jsonToRat j
   let pinned := match fieldOpt c "pinned_done_rule" with
     | some (.bool b) => b
     | _ => false
@@ -134,7 +162,7 @@ def c04Search : Handler := fun c => do
       let cfg : Cfg := ⟨V, width, eos, finishAll, pad, 0, pinned⟩
       let lm := tableLM V tables.toArray
       let inits : List St := (List.range tables.length).map fun n => (n, [])
-      let (res, fl, steps) := loopFlags cfg lm fuel 0 0 1 (inits.map initElem)
+      let (res, fl, steps) := loopFlags cfg lm margin fuel 0 0 1 (inits.map initElem)
         ({ frozen := inits.map fun _ => none } : Traj) 0
       let direct := search selDet cfg lm (0, []) inits fuel
       let modelJ ← match res, direct with
@@ -158,7 +186,8 @@ def c04Search : Handler := fun c => do
         ("spec", objJ [("chain", listJ (listJ scoreJ) chains), ("complete", complete),
           ("eos", optJ intJ eos)]),
         ("flags", objJ [("tie", boolJ fl.tie), ("ninf_choice", boolJ fl.ninf), ("steps", natJ steps),
-          ("gap", optJ ratToJson fl.gap), ("frozen", listJ (optJ natJ) fl.frozen)])])
+          ("gap", optJ ratToJson fl.gap), ("sep", boolJ fl.sep),
+          ("frozen", listJ (optJ natJ) fl.frozen)])])
 
 /-- case: {V, width, S, lens_given, rows: [ {cols:[[..]..], lens:[..], scores:[..], logp:[[..]..]} ]} -/
 def c04Advance : Handler := fun c => do
